@@ -63,3 +63,28 @@ def records(spec, contract_name, timeout_s=10.0, prefix=""):
             rec.update(ok=True)
         out.append(rec)
     return out
+
+
+def crosscheck(spec, make_args, runs=6, seed=0):
+    """Engine agreement: the executor's concrete mode versus CPython on the real function, random small inputs."""
+    import copy
+
+    import numpy as np
+
+    rng = np.random.default_rng(seed)
+    bad, done = [], 0
+    for k in range(runs):
+        args = make_args(rng, k)
+        native = copy.deepcopy(args)
+        try:
+            spec.fn(*[native[n] for n, _ in spec.params])
+            got = wp.run_concrete(spec, copy.deepcopy(args))
+        except wp.Unsupported as e:
+            return [{"name": "engine_agrees_with_cpython_on_concrete_inputs", "ok": False, "undecided": True, "detail": f"concrete mode: {e}", "function": spec.name, "backend": "cpython-crosscheck", "strength": "B"}]
+        done += 1
+        for n, kind in spec.params:
+            if isinstance(kind, str) and kind.startswith("arr"):
+                a, b = np.asarray(native[n], dtype=float), got[n]
+                if a.shape != b.shape or not np.allclose(a, b, rtol=1e-9, atol=1e-12, equal_nan=True):
+                    bad.append((k, n, a.tolist(), b.tolist()))
+    return [{"name": "engine_agrees_with_cpython_on_concrete_inputs", "ok": not bad, "engine": True, "detail": f"{done} random inputs (sizes 0-3); first disagreement: {bad[:1]}", "function": spec.name, "backend": "cpython-crosscheck", "strength": "B"}]
